@@ -278,6 +278,23 @@ def main(argv):
         signal.alarm(limit)
     except Exception:                       # noqa
         pass
+    cover = os.environ.get("VERIF_COVER")          # one-off analysis: which library lines do the drivers execute?
+    if cover:
+        import threading
+        src = os.path.realpath(os.path.join(REPO, "src", "spake2")) + os.sep
+        seen = set()
+
+        def tracer(frame, event, arg):
+            fn = frame.f_code.co_filename
+            if not fn.startswith(src) and "_toy_" not in fn:
+                return None
+            if event == "line":
+                seen.add((os.path.basename(fn), frame.f_lineno))
+            return tracer
+        sys.settrace(tracer)
+        threading.settrace(tracer)
+        import atexit
+        atexit.register(lambda: json.dump(sorted(seen), open(os.path.join(cover, a.pid + ".json"), "w")))
     try:
         ensure_built()
         mod = importlib.import_module(a.pid.lower())
